@@ -127,17 +127,17 @@ Proof.
   intros Hk. constructor; cbn; auto; try constructor; try (intros y Hy; congruence).
 Qed.
 
-Lemma link_all_externally_spec s2 l2 a :
+Lemma link_all_externally_spec s1 s2 l2 a :
   lrep s2 l2 -> lok a ->
-  exists r a', link_all_externally s2 a = Ok (r, a') /\ aframe a a' /\
+  exists r a', link_all_externally s1 s2 a = Ok (r, a') /\ aframe a a' /\
     match r with
     | Some (hd, tl, hx) => exists cp, map snd cp = map snd l2 /\ length cp = length l2 /\
-        hd = first_id cp 0 /\ tl = last_id cp 0 /\ chain_ok (l_mem s2) hx cp a' (live a)
+        hd = first_id cp 0 /\ tl = last_id cp 0 /\ chain_ok (l_mem s1) hx cp a' (live a)
     | None => live a' = live a /\ lok a' /\ (plan a <> [] \/ limit a < NODE_BYTES)
     end.
 Proof.
   intros R Hk. unfold link_all_externally. rewrite (rep_size _ _ R), lenN_length, (rep_head _ _ R).
-  exact (lae_loop_spec (l_mem s2) (l_heap s2) l2 (length l2) 0 [] [] a (live a) (rep_seg _ _ R) (rep_nz _ _ R)
+  exact (lae_loop_spec (l_mem s1) (l_heap s2) l2 (length l2) 0 [] [] a (live a) (rep_seg _ _ R) (rep_nz _ _ R)
            (chain_ok_nil _ _ Hk) eq_refl).
 Qed.
 
@@ -371,15 +371,15 @@ Definition bulk_ok (s1 : clist) (A B l2 : list (N * N)) (a : alloc_st) (F : list
    (st = CC_ERR_ALLOC /\ s1' = s1 /\ live a' = live a /\ lok a' /\ (plan a <> [] \/ limit a < NODE_BYTES))).
 
 Lemma attach_copy_spec s1 A B s2 l2 a F hd tl hx cp a1 :
-  lrep s1 (A ++ B) -> A ++ B <> [] -> l2 <> [] -> lown a s1 (A ++ B) F -> l_mem s1 = l_mem s2 ->
+  lrep s1 (A ++ B) -> A ++ B <> [] -> l2 <> [] -> lown a s1 (A ++ B) F ->
   map snd cp = map snd l2 -> length cp = length l2 -> hd = first_id cp 0 -> tl = last_id cp 0 ->
-  chain_ok (l_mem s2) hx cp a1 (live a) -> aframe a a1 -> l_size s2 = lenN l2 ->
+  chain_ok (l_mem s1) hx cp a1 (live a) -> aframe a a1 -> l_size s2 = lenN l2 ->
   exists hd' tl' h',
     (do (e, b) <- end_base (upd s1 (l_size s1) (l_head s1) (l_tail s1) (hx ++ l_heap s1)) (lenN A);
      attach_between (hx ++ l_heap s1) (l_head s1) (l_tail s1) hd tl e b) = Ok (hd', tl', h') /\
     bulk_ok s1 A B l2 a F CC_OK (upd s1 (l_size s1 + l_size s2) hd' tl' h') a1.
 Proof.
-  intros R Hne Hl2 [Hk Ho] Hmem Hcp Hlen -> -> C Hf Hsz2.
+  intros R Hne Hl2 [Hk Ho] Hcp Hlen -> -> C Hf Hsz2.
   assert (Hcpne : cp <> []) by (intros ->; destruct l2; [congruence|discriminate]).
   assert (Hdis : forall y, In y (ids (A ++ B)) -> ~ In y (ids cp)).
   { intros y Hy Hin. eapply chain_fresh; [exact C|exact Hin|]. eapply owns_ids_live; eassumption. }
@@ -409,16 +409,16 @@ Proof.
       * apply (rep_dom _ _ R) in Hy. rewrite !ids_app, !in_app_iff in *. tauto.
     + apply R.
   - split; [apply C|]. eapply owns_insert_many; [exact Ho| |apply same_hdr_upd|exact Hperm].
-    rewrite Hmem. apply C.
+    apply C.
 Qed.
 
 Lemma add_all_to_empty_spec s1 s2 l2 a F :
-  lrep s1 [] -> lrep s2 l2 -> lown a s1 [] F -> l_mem s1 = l_mem s2 -> l2 <> [] ->
+  lrep s1 [] -> lrep s2 l2 -> lown a s1 [] F -> l2 <> [] ->
   exists st s1' a', add_all_to_empty s1 s2 a = Ok (st, s1', a') /\ bulk_ok s1 [] [] l2 a F st s1' a'.
 Proof.
-  intros R1 R2 [Hk Ho] Hmem Hl2. unfold add_all_to_empty.
+  intros R1 R2 [Hk Ho] Hl2. unfold add_all_to_empty.
   replace (l_size s2 =? 0) with false by (symmetry; apply N.eqb_neq; rewrite (rep_size _ _ R2); destruct l2; [congruence|rewrite lenN_cons; lia]).
-  destruct (link_all_externally_spec s2 l2 a R2 Hk) as (r & a1 & E & Hf & Hr). rewrite E. cbn [bind].
+  destruct (link_all_externally_spec s1 s2 l2 a R2 Hk) as (r & a1 & E & Hf & Hr). rewrite E. cbn [bind].
   destruct r as [[[hd tl] hx]|].
   - destruct Hr as (cp & Hcp & Hlen & -> & -> & C). do 3 eexists. split; [reflexivity|].
     split; [assumption|]. split; [apply same_hdr_upd|]. left. split; [reflexivity|]. exists cp. split; [assumption|].
@@ -432,16 +432,16 @@ Proof.
       * intros y Hy. rewrite hget_app, Hh1 in Hy. apply (ck_dom _ _ _ _ _ C). destruct (hget hx y); [discriminate|congruence].
       * apply R1.
     + split; [apply C|]. eapply owns_insert_many; [exact Ho| |apply same_hdr_upd|].
-      * rewrite Hmem. apply C.
+      * apply C.
       * cbn [ids map]. rewrite app_nil_r. reflexivity.
   - destruct Hr as (Hl & Hk1 & Hw). do 3 eexists. split; [reflexivity|]. split; [assumption|]. split; [auto|]. right. auto.
 Qed.
 
 Lemma add_all_at_spec s1 A B s2 l2 a F :
-  lrep s1 (A ++ B) -> lrep s2 l2 -> lown a s1 (A ++ B) F -> l_mem s1 = l_mem s2 -> l2 <> [] ->
+  lrep s1 (A ++ B) -> lrep s2 l2 -> lown a s1 (A ++ B) F -> l2 <> [] ->
   exists st s1' a', cl_add_all_at s1 s2 (lenN A) a = Ok (st, s1', a') /\ bulk_ok s1 A B l2 a F st s1' a'.
 Proof.
-  intros R1 R2 Hown Hmem Hl2. unfold cl_add_all_at, g_list_add_all_at_range.
+  intros R1 R2 Hown Hl2. unfold cl_add_all_at, g_list_add_all_at_range.
   replace (l_size s2 =? 0) with false by (symmetry; apply N.eqb_neq; rewrite (rep_size _ _ R2); destruct l2; [congruence|rewrite lenN_cons; lia]).
   pose proof (rep_size _ _ R1) as Hsz1. rewrite lenN_app in Hsz1.
   replace (l_size s1 <? lenN A) with false by lia.
@@ -452,10 +452,10 @@ Proof.
   - assert (Hne : A ++ B <> []).
     { intros E0. apply app_eq_nil in E0. destruct E0; subst. cbn in Hsz1. lia. }
     destruct Hown as [Hk Ho].
-    destruct (link_all_externally_spec s2 l2 a R2 Hk) as (r & a1 & E & Hf & Hr). rewrite E. cbn [bind].
+    destruct (link_all_externally_spec s1 s2 l2 a R2 Hk) as (r & a1 & E & Hf & Hr). rewrite E. cbn [bind].
     destruct r as [[[hd tl] hx]|].
     + destruct Hr as (cp & Hcp & Hlen & Hhd & Htl & C).
-      destruct (attach_copy_spec s1 A B s2 l2 a F hd tl hx cp a1 R1 Hne Hl2 (conj Hk Ho) Hmem Hcp Hlen Hhd Htl C Hf (rep_size _ _ R2))
+      destruct (attach_copy_spec s1 A B s2 l2 a F hd tl hx cp a1 R1 Hne Hl2 (conj Hk Ho) Hcp Hlen Hhd Htl C Hf (rep_size _ _ R2))
         as (hd' & tl' & h' & E2 & Hb).
       cbn [upd l_heap].
       destruct (end_base _ _) as [[e b]|]; [|discriminate]. cbn [bind] in E2 |- *. rewrite E2. cbn [bind].
@@ -474,13 +474,13 @@ Proof.
 Qed.
 
 Lemma add_all_spec s1 l1 s2 l2 a F :
-  lrep s1 l1 -> lrep s2 l2 -> lown a s1 l1 F -> l_mem s1 = l_mem s2 -> l2 <> [] ->
+  lrep s1 l1 -> lrep s2 l2 -> lown a s1 l1 F -> l2 <> [] ->
   exists st s1' a', cl_add_all s1 s2 a = Ok (st, s1', a') /\ bulk_ok s1 l1 [] l2 a F st s1' a'.
 Proof.
-  intros R1 R2 Hown Hmem Hl2. unfold cl_add_all. destruct (l_size s1 =? 0) eqn:Ez.
+  intros R1 R2 Hown Hl2. unfold cl_add_all. destruct (l_size s1 =? 0) eqn:Ez.
   - pose proof (lrep_nil_size _ _ R1 Ez) as ->. apply add_all_to_empty_spec; assumption.
   - rewrite (rep_size _ _ R1). rewrite <- (app_nil_r l1) in R1, Hown.
-    destruct (add_all_at_spec s1 l1 [] s2 l2 a F R1 R2 Hown Hmem Hl2) as (st & s1' & a' & E & Hb).
+    destruct (add_all_at_spec s1 l1 [] s2 l2 a F R1 R2 Hown Hl2) as (st & s1' & a' & E & Hb).
     exists st, s1', a'. split; [exact E|exact Hb].
 Qed.
 Lemma add_all_empty_src s1 s2 a : lrep s2 [] -> cl_add_all s1 s2 a = Ok (CC_OK, s1, a).
